@@ -45,6 +45,18 @@ func (w *writer) open() error {
 		return err
 	}
 
+	// A previous writer may have been killed in the middle of a line. Terminate
+	// that line, otherwise the next status would be glued to it and be lost.
+	if info, err := file.Stat(); err == nil && info.Size() > 0 {
+		last := make([]byte, 1)
+		if rf, err := os.Open(w.target); err == nil {
+			if _, err := rf.ReadAt(last, info.Size()-1); err == nil && last[0] != '\n' {
+				_, _ = file.Write([]byte{'\n'})
+			}
+			_ = rf.Close()
+		}
+	}
+
 	w.file = file
 	w.writer = bufio.NewWriter(file)
 	return nil
